@@ -22,6 +22,22 @@ def _mid(nodes):
     return 0.5 * (nodes[1:, :] + nodes[:-1, :])
 
 
+def runs(env, key, factory, ins):
+    """(label, outputs at ins): a fresh instance, then live instances whose previous run differed from ins in one input
+    (the statement is about every evaluation of a model, not only the first)"""
+    h = env.comp(key, factory)
+    yield "", h.compute(ins)
+    if len(ins) < 2:
+        return
+    for k in ins:
+        hk = env.comp("%s.after.%s" % (key, k), factory)
+        prev = dict(ins)
+        prev[k] = hk.inputs(tag="P.")[k]
+        store = hk.out_store()
+        hk.compute(prev, outs=store)
+        yield " (instance last run with another %s)" % k, hk.compute(ins, outs=store)
+
+
 @job("c16.Weight_CG", ("C16",), cfgs=product(NYS, SYMS, [dict(model="tube")]), ranges=R)
 def weight_cg(env, **cfg):
     xp = env.xp
@@ -54,14 +70,15 @@ def struct_weight_loads(env, **cfg):
     s = surf_of(cfg)
     h = env.comp("swl", lambda: cls("structures.wing_weight_loads.StructureWeightLoads")(surface=s))
     ins = h.inputs()
-    loads = h.compute(ins)["struct_weight_loads"]
     nodes, em, n = ins["nodes"], ins["element_mass"], np.asarray(ins["load_factor"]).reshape(-1)[0]
     q = env.var("q", (3,))
     W = em * G * n                                      # weight of each modelled element
     Fz = xp.stack([0 * W, 0 * W, -W], axis=1)
-    env.eq("C16", "structural-weight loads sum to -(modelled mass) g n in z", loads[:, :3].sum(axis=0), Fz.sum(axis=0))
-    env.eq("C16", "structural-weight loads have the total moment of the element weights acting at the element midpoints",
-           total_moment(xp, nodes, loads[:, :3], q, loads[:, 3:]), total_moment(xp, _mid(nodes), Fz, q))
+    for lab, o in runs(env, "swl", h.factory, ins):
+        loads = o["struct_weight_loads"]
+        env.eq("C16", "structural-weight loads sum to -(modelled mass) g n in z" + lab, loads[:, :3].sum(axis=0), Fz.sum(axis=0))
+        env.eq("C16", "structural-weight loads have the total moment of the element weights acting at the element midpoints" + lab,
+               total_moment(xp, nodes, loads[:, :3], q, loads[:, 3:]), total_moment(xp, _mid(nodes), Fz, q))
 
 
 @job("c16.FuelLoads", ("C16",), cfgs=product(NYS, SYMS, [dict(model="wingbox")]), ranges=R, cost=3)
@@ -70,7 +87,6 @@ def fuel_loads(env, **cfg):
     s = surf_of(cfg)
     h = env.comp("fl", lambda: cls("structures.fuel_loads.FuelLoads")(surface=s))
     ins = h.inputs()
-    loads = h.compute(ins)["fuel_weight_loads"]
     nodes, vols = ins["nodes"], ins["fuel_vols"]
     n = np.asarray(ins["load_factor"]).reshape(-1)[0]
     fm = np.asarray(ins["fuel_mass"]).reshape(-1)[0]
@@ -79,9 +95,11 @@ def fuel_loads(env, **cfg):
     W = Wtot * vols / vols.sum()                         # distributed in proportion to the enclosed volumes
     Fz = xp.stack([0 * W, 0 * W, -W], axis=1)
     q = env.var("q", (3,))
-    env.eq("C16", "fuel loads sum to -(fuel + reserve) g n (half share for a symmetric surface)", loads[:, :3].sum(axis=0), Fz.sum(axis=0))
-    env.eq("C16", "fuel loads have the total moment of the segment fuel weights acting at the element midpoints",
-           total_moment(xp, nodes, loads[:, :3], q, loads[:, 3:]), total_moment(xp, _mid(nodes), Fz, q))
+    for lab, o in runs(env, "fl", h.factory, ins):
+        loads = o["fuel_weight_loads"]
+        env.eq("C16", "fuel loads sum to -(fuel + reserve) g n (half share for a symmetric surface)" + lab, loads[:, :3].sum(axis=0), Fz.sum(axis=0))
+        env.eq("C16", "fuel loads have the total moment of the segment fuel weights acting at the element midpoints" + lab,
+               total_moment(xp, nodes, loads[:, :3], q, loads[:, 3:]), total_moment(xp, _mid(nodes), Fz, q))
 
 
 @job("c16.PointMassThrustLoads", ("C16",), cfgs=product(NYS, SYMS, [dict(model="tube")], [dict(n_point_masses=1), dict(n_point_masses=2)]),
@@ -92,23 +110,23 @@ def point_mass_thrust(env, **cfg):
     pm = env.comp("pm", lambda: cls("structures.compute_point_mass_loads.ComputePointMassLoads")(surface=s))
     th = env.comp("th", lambda: cls("structures.compute_thrust_loads.ComputeThrustLoads")(surface=s))
     ins = pm.inputs()
-    o = pm.compute(ins)
     nodes, loc, m = ins["nodes"], ins["point_mass_locations"], ins["point_masses"]
     n = np.asarray(ins["load_factor"]).reshape(-1)[0]
     q = env.var("q", (3,))
-    env.eq("C16", "nodal weightings of every point mass sum to one", o["nodal_weightings"].sum(axis=1), 1 + 0 * m)
-    loads = o["loads_from_point_masses"]
     Fz = xp.stack([0 * m, 0 * m, -m * G * n], axis=1)
-    env.eq("C16", "point-mass loads sum to -m g n in z", loads[:, :3].sum(axis=0), Fz.sum(axis=0))
-    env.eq("C16", "point-mass loads have the total moment of the weights acting at the point-mass locations",
-           total_moment(xp, nodes, loads[:, :3], q, loads[:, 3:]), total_moment(xp, loc, Fz, q))
+    for lab, o in runs(env, "pm", pm.factory, ins):
+        env.eq("C16", "nodal weightings of every point mass sum to one" + lab, o["nodal_weightings"].sum(axis=1), 1 + 0 * m)
+        loads = o["loads_from_point_masses"]
+        env.eq("C16", "point-mass loads sum to -m g n in z" + lab, loads[:, :3].sum(axis=0), Fz.sum(axis=0))
+        env.eq("C16", "point-mass loads have the total moment of the weights acting at the point-mass locations" + lab,
+               total_moment(xp, nodes, loads[:, :3], q, loads[:, 3:]), total_moment(xp, loc, Fz, q))
     thr = env.var("engine_thrusts", th.shape["engine_thrusts"])
-    o2 = th.compute(dict(point_mass_locations=loc, engine_thrusts=thr, nodes=nodes))
-    l2 = o2["loads_from_thrusts"]
     Fx = xp.stack([-thr, 0 * thr, 0 * thr], axis=1)
-    env.eq("C16", "thrust loads sum to the thrust acting forward (-x)", l2[:, :3].sum(axis=0), Fx.sum(axis=0))
-    env.eq("C16", "thrust loads have the total moment of the thrusts acting at the engine locations",
-           total_moment(xp, nodes, l2[:, :3], q, l2[:, 3:]), total_moment(xp, loc, Fx, q))
+    for lab, o2 in runs(env, "th", th.factory, dict(point_mass_locations=loc, engine_thrusts=thr, nodes=nodes)):
+        l2 = o2["loads_from_thrusts"]
+        env.eq("C16", "thrust loads sum to the thrust acting forward (-x)" + lab, l2[:, :3].sum(axis=0), Fx.sum(axis=0))
+        env.eq("C16", "thrust loads have the total moment of the thrusts acting at the engine locations" + lab,
+               total_moment(xp, nodes, l2[:, :3], q, l2[:, 3:]), total_moment(xp, loc, Fx, q))
 
 
 @job("c16.TotalLoads", ("C16",), cfgs=product([dict(nx=2, ny=3)], [dict(symmetry=True, side="left")], [dict(model="tube")],
